@@ -292,6 +292,19 @@ func c13Battery(g c13Grid, r *table.Reader, pairs []model.Pair, depth int, damag
 			if v != "" {
 				return fmt.Sprintf("range [%q,%q): %s", s, l, v)
 			}
+			// long walks on tables with many entries (with block size 1 every entry is a block):
+			// turn-arounds that cross several block boundaries need five or six moves - over
+			// First/Last/Next/Prev and one Seek into the middle, on the whole table and one range
+			if len(pairs) >= 6 && s == nil && (l == nil || len(want) >= 4) {
+				deep := depth + 3
+				st2 := walkStats{}
+				v := walkAll(func() iterator.Iterator { return r.NewIterator(rg, nil) }, want, cmp.Compare, seeks[1:2], deep, &st2)
+				res.Seqs += st2.Seqs
+				res.Moves += st2.Moves
+				if v != "" {
+					return fmt.Sprintf("range [%q,%q) (long walk): %s", s, l, v)
+				}
+			}
 		}
 	}
 	return ""
